@@ -96,19 +96,47 @@ Theorem updates_and_fresh_creates_succeed :
   forall k trust now (st : store) (items : list item),
   k = KApply \/ k = KReapplyRecs -> trust <= 2 ->
   loads_ok now st items = true -> NoDup (map key items) ->
+  (forall it, In it items -> stale_new it = false) ->
   (forall it, In it items -> protected trust k (it_new it) = true -> found now st it = false) ->
   snd (run_recs (rec_code k trust) now st items) = ROk /\
   forall it, In it items -> get now (fst (run_recs (rec_code k trust) now st items)) (it_pk it) (it_cc it) = Some (it_val it).
 Proof. exact (apply_succeeds_proved inserted_rows_never_expire batch_flag_is_cud_is_new_for_every_kind new_records_guarded_at_level_0 reapply_records_overwrites reapply_wlog_overwrites). Qed.
 
-Theorem updates_always_succeed :
+(* "Updates of existing records still succeed", every level, Apply and re-apply.
+   Full statement (no restriction on how the update was built):
+     forall k trust now st items, (k = KApply \/ k = KReapplyRecs) -> trust <= 2 ->
+       loads_ok now st items = true -> NoDup (map key items) ->
+       (forall it, In it items -> it_new it = false) ->  snd (run_recs (rec_code k trust) now st items) = ROk /\ ...
+   It is refuted for the code as found (updates_succeed_full_refuted, finding F-A): ICUD.Update copies the
+   isNew flag of the record object it is given, so an update built from the object handed out for a
+   created row (Apply2 callback) is stored through the insert path and answered SequencesViolation at
+   level 0.  Proved: the statement for rows that do not inherit a set flag (`stale_new it = false`:
+   updates built from Records().Get, or any update once newUpdateRec resets the flag) ... *)
+Theorem updates_always_succeed_partial :
+  forall k trust now (st : store) (items : list item),
+  k = KApply \/ k = KReapplyRecs -> trust <= 2 ->
+  loads_ok now st items = true -> NoDup (map key items) ->
+  (forall it, In it items -> stale_new it = false) ->
+  (forall it, In it items -> it_new it = false) ->
+  snd (run_recs (rec_code k trust) now st items) = ROk /\
+  forall it, In it items -> get now (fst (run_recs (rec_code k trust) now st items)) (it_pk it) (it_cc it) = Some (it_val it).
+Proof. exact (updates_always_succeed_proved inserted_rows_never_expire batch_flag_is_cud_is_new_for_every_kind new_records_guarded_at_level_0 reapply_records_overwrites reapply_wlog_overwrites). Qed.
+
+(* ... and the full statement as soon as the translator finds the flag reset in newUpdateRec
+   (c05_update_inherits_isnew = false, the repair findings/C05/F-A.diff) *)
+Theorem updates_always_succeed_when_flag_reset :
+  c05_update_inherits_isnew = false ->
   forall k trust now (st : store) (items : list item),
   k = KApply \/ k = KReapplyRecs -> trust <= 2 ->
   loads_ok now st items = true -> NoDup (map key items) ->
   (forall it, In it items -> it_new it = false) ->
   snd (run_recs (rec_code k trust) now st items) = ROk /\
   forall it, In it items -> get now (fst (run_recs (rec_code k trust) now st items)) (it_pk it) (it_cc it) = Some (it_val it).
-Proof. exact (updates_always_succeed_proved inserted_rows_never_expire batch_flag_is_cud_is_new_for_every_kind new_records_guarded_at_level_0 reapply_records_overwrites reapply_wlog_overwrites). Qed.
+Proof.
+  exact (fun E k trust now st items =>
+    updates_always_succeed_full_proved inserted_rows_never_expire batch_flag_is_cud_is_new_for_every_kind new_records_guarded_at_level_0
+      reapply_records_overwrites reapply_wlog_overwrites k trust now st items E).
+Qed.
 
 (* Levels 1 and 2 and re-apply at every level write the batch with one PutBatch: existing
    records ARE overwritten (the reading of the statement taken from isequencer/consts.go:
@@ -132,10 +160,12 @@ Proof. exact (apply_frame_proved inserted_rows_never_expire). Qed.
    property oracle, which looks at the observations only. *)
 Theorem agrees_implies_satisfies :
   forall (stamp : V -> N) (veqb : V -> V -> bool), (forall a b, veqb a b = true <-> a = b) ->
-  forall t : gtrace V, gagrees stamp veqb t = true -> gsatisfies stamp veqb t = true.
+  forall t : gtrace V,
+  c05_update_inherits_isnew = false \/ gclean t = true ->
+  gagrees stamp veqb t = true -> gsatisfies stamp veqb t = true.
 Proof.
   exact (fun stamp veqb veqb_eq =>
-    link_proved inserted_rows_never_expire batch_flag_is_cud_is_new_for_every_kind stamp veqb veqb_eq plog_guarded_at_levels_0_1 wlog_guarded_at_levels_0_1
+    link_full_proved inserted_rows_never_expire batch_flag_is_cud_is_new_for_every_kind stamp veqb veqb_eq plog_guarded_at_levels_0_1 wlog_guarded_at_levels_0_1
       new_records_guarded_at_level_0 reapply_records_overwrites reapply_wlog_overwrites).
 Qed.
 
@@ -151,15 +181,24 @@ Example log_append_refused_full_refuted :
     (k = KPlog \/ k = KWlog) /\ trust < 2 /\ get now st (it_pk it) (it_cc it) = Some old /\
     run_log (log_code k trust corrupted) now st it <> (st, RViolation).
 Proof.
-  exists KPlog, 0, true, 0%Z, (put [] [1] [2] 7), (mkItem [1] [2] 0 true false 8), 7.
+  exists KPlog, 0, true, 0%Z, (put [] [1] [2] 7), (mkItem [1] [2] 0 true false false 8), 7.
   repeat split; try (left; reflexivity); try reflexivity. vm_compute. discriminate.
 Qed.
+
+(* finding F-A: the update clause without the restriction, refuted while the flag is inherited *)
+Example updates_succeed_full_refuted :
+  c05_update_inherits_isnew = true ->
+  exists (now : Z) (st : store N) (items : list (item N)),
+    loads_ok now st items = true /\ NoDup (map key items) /\
+    (forall it, In it items -> it_new it = false /\ found now st it = true) /\
+    snd (run_recs (rec_code KApply 0) now st items) = RViolation.
+Proof. exact updates_succeed_full_refuted_proved. Qed.
 
 (* ---- non-vacuity ---- *)
 Definition ex_store : store N := put (put [] [0; 3] [0; 10] 70) [0; 4; 9] [0; 1] 50.
 
 Example log_append_refused_nonvacuous :
-  let it := mkItem [0; 3] [0; 10] 0 true false 71 in
+  let it := mkItem [0; 3] [0; 10] 0 true false false 71 in
   get 5%Z ex_store (it_pk it) (it_cc it) = Some 70
   /\ run_log (log_code KPlog 1 false) 5%Z ex_store it = (ex_store, RViolation)
   /\ run_log (log_code KWlog 0 false) 5%Z ex_store it = (ex_store, RViolation)
@@ -167,7 +206,7 @@ Example log_append_refused_nonvacuous :
 Proof. vm_compute. repeat split; discriminate. Qed.
 
 Example log_append_empty_nonvacuous :
-  let it := mkItem [0; 3] [0; 11] 0 true false 71 in
+  let it := mkItem [0; 3] [0; 11] 0 true false false 71 in
   get 5%Z ex_store (it_pk it) (it_cc it) = None
   /\ get 5%Z (fst (run_log (log_code KPlog 0 false) 5%Z ex_store it)) [0; 3] [0; 11] = Some 71
   /\ get 5%Z (fst (run_log (log_code KPlog 0 false) 5%Z ex_store it)) [0; 3] [0; 10] = Some 70.
@@ -176,8 +215,8 @@ Proof. vm_compute. repeat split. Qed.
 (* a three-row event at level 0: a fresh create is written, then a create of an existing id is
    refused; the existing record is intact, the update behind it is never reached *)
 Example create_existing_refused_nonvacuous :
-  let items := [mkItem [0; 4; 9] [0; 2] 5 true false 51; mkItem [0; 4; 9] [0; 1] 2 true false 52;
-                mkItem [0; 3] [0; 10] 3 false false 72] in
+  let items := [mkItem [0; 4; 9] [0; 2] 5 true false false 51; mkItem [0; 4; 9] [0; 1] 2 true false false 52;
+                mkItem [0; 3] [0; 10] 3 false false false 72] in
   let r := run_recs (rec_code KApply 0) 5%Z ex_store items in
   loads_ok 5%Z ex_store items = true
   /\ snd r = RViolation
@@ -189,7 +228,7 @@ Example create_existing_refused_nonvacuous :
 Proof. vm_compute. repeat split. Qed.
 
 Example updates_succeed_nonvacuous :
-  let items := [mkItem [0; 4; 9] [0; 1] 4 false true 53; mkItem [0; 3] [0; 10] 1 false false 73] in
+  let items := [mkItem [0; 4; 9] [0; 1] 4 false false true 53; mkItem [0; 3] [0; 10] 1 false false false 73] in
   loads_ok 5%Z ex_store items = true /\ NoDup (map key items)
   /\ run_recs (rec_code KApply 0) 5%Z ex_store items = (put_batch ex_store (rows items), ROk)
   /\ get 5%Z (fst (run_recs (rec_code KReapplyRecs 0) 5%Z ex_store items)) [0; 4; 9] [0; 1] = Some 53.
@@ -199,8 +238,8 @@ Qed.
 
 (* a two-step observed trace (level 0, PLog: first append stored, second refused) passes both checks *)
 Example link_nonvacuous :
-  let it1 := mkItem [0; 3] [0; 10] 0 true false (1, 100) in
-  let it2 := mkItem [0; 3] [0; 10] 0 true false (2, 101) in
+  let it1 := mkItem [0; 3] [0; 10] 0 true false false (1, 100) in
+  let it2 := mkItem [0; 3] [0; 10] 0 true false false (2, 101) in
   let o := mkObs (Some (1, 100)) (Some (1, 100)) (Some 100) in
   let t := mkTrace 0 0
     [mkStep KPlog false [mkSlot it1 (mkObs None None None) o] ROk [CIns [0; 3] [0; 10] (1, 100) 0%Z true];
@@ -215,7 +254,9 @@ Print Assumptions log_overwrite_only_when_trusted_or_reapply.
 Print Assumptions create_existing_refused.
 Print Assumptions existing_entry_intact.
 Print Assumptions updates_and_fresh_creates_succeed.
-Print Assumptions updates_always_succeed.
+Print Assumptions updates_always_succeed_partial.
+Print Assumptions updates_always_succeed_when_flag_reset.
+Print Assumptions updates_succeed_full_refuted.
 Print Assumptions apply_unguarded_overwrites.
 Print Assumptions apply_frame.
 Print Assumptions agrees_implies_satisfies.
